@@ -194,6 +194,9 @@ func init() {
 		return res
 	}
 
+	models["(crypto.Hash).String"] = func(it *Interp, fr *frame, args []Value, fn *ssa.Function) Value {
+		return it.opaqueString() // display only
+	}
 	models["(encoding/asn1.ObjectIdentifier).String"] = func(it *Interp, fr *frame, args []Value, fn *ssa.Function) Value {
 		g := args[0].(GSlice)
 		parts := make([]string, len(g.D))
